@@ -3,8 +3,12 @@ import itertools
 import os
 import random
 
+import json
+
 import cluster
 import common
+import elect
+import tlc
 
 PROP = "C07"
 CHECKS = ["ELECT"]
@@ -58,31 +62,137 @@ def cases_for(tier, seed):
     return cases
 
 
+F = lambda n: {"op": "force", "node": n}
+K = lambda n: {"op": "kill", "node": n}
+A = lambda n: {"op": "auth", "node": n}
+
+
+def model_scenarios(tier, wd):
+    """NunElect scenarios explored exhaustively: an established cluster (formed in the simulator's FIFO order,
+    every order of what happens afterwards) and one trigger; join start-up by random walks."""
+    two, three = ["n1", "n2"], ["n1", "n2", "n3"]
+    p2, p3 = [100, 110], [100, 110, 120]
+    f2 = elect.formation_schedule(two, p2, "direct", wd)
+    f3 = elect.formation_schedule(three, p3, "direct", wd)
+    ex = [elect.Scenario("d2_none", two, p2, [], form_sched=f2)]
+    for n in two:
+        ex.append(elect.Scenario("d2_force_%s" % n, two, p2, [A(n), F(n)], form_sched=f2))
+        ex.append(elect.Scenario("d2_kill_%s" % n, two, p2, [K(n)], form_sched=f2))
+    ex.append(elect.Scenario("d2_force_both", two, p2, [A("n1"), A("n2"), F("n1"), F("n2")], seqprefix=2, form_sched=f2))
+    ex.append(elect.Scenario("d2_free", two, p2, [A("n2"), F("n2")]))            # every formation order as well
+    walks = []
+    for n in three:
+        # (a forced election on the youngest of three has more than 10^7 states: random walks)
+        (ex if n != "n3" else walks).append(elect.Scenario("d3_force_%s" % n, three, p3, [A(n), F(n)], form_sched=f3))
+        ex.append(elect.Scenario("d3_kill_%s" % n, three, p3, [K(n)], form_sched=f3))
+    ex.append(elect.Scenario("d3_kill_n1_kill_n2", three, p3, [K("n1"), K("n2")], form_sched=f3))
+    walks.append(elect.Scenario("d3_force_n2_n3", three, p3, [A("n2"), A("n3"), F("n2"), F("n3")], seqprefix=2, form_sched=f3))
+    walks.append(elect.Scenario("d3_kill_n1_force_n3", three, p3, [A("n3"), K("n1"), F("n3")], seqprefix=1, form_sched=f3))
+    for i, pids in enumerate(itertools.permutations([100, 110])):
+        walks.append(elect.Scenario("j2_%d" % i, two, list(pids), [], formation="join"))
+        walks.append(elect.Scenario("j2f_%d" % i, two, list(pids), [A("n1"), A("n2"), F("n1"), F("n2")], formation="join", seqprefix=2))
+    for i, pids in enumerate(itertools.permutations([100, 110, 120])):
+        walks.append(elect.Scenario("j3_%d" % i, three, list(pids), [], formation="join"))
+        if i % 2 == 0 or tier != "quick":
+            walks.append(elect.Scenario("j3k_%d" % i, three, list(pids), [K(three[list(pids).index(100)])], formation="join"))
+    return ex, walks
+
+
 def run(tier, seed):
     res = common.Result(PROP, tier, seed, "model_checking")
     wd = common.workdir(PROP)
     devs, known = common.load_findings(PROP)
+    rnd = random.Random(seed)
+    # ---- 1. TLC on the implementation-shaped model
+    ex, walks = model_scenarios(tier, wd)
+    exr = elect.explore(ex, wd, workers=5, tlc_workers=3, timeout=2400)
+    wr = elect.explore(walks, wd, simulate=40 if tier == "quick" else 600, workers=8, depth=2500, timeout=2400)
+    modes = {}
+    model_cases, predicted = [], {}
+    cap = 40 if tier == "quick" else 400
+    for scs, rs in ((ex, exr), (walks, wr)):
+        for sc in scs:
+            cs = rs[sc.sid]["cases"]
+            for c in cs:
+                modes[c["mode"]] = modes.get(c["mode"], 0) + 1
+            if len(cs) > cap:        # keep every not-good outcome, sample the rest
+                bad = [c for c in cs if c["mode"] != "good"]
+                cs = bad[:cap] + rnd.sample([c for c in cs if c["mode"] == "good"], max(0, cap - len(bad)))
+            for k, c in enumerate(cs):
+                cid = "m_%s_%d" % (sc.sid, k)
+                model_cases.append(sc.sim_case(cid, c["sched"], seed + k))
+                predicted[cid] = c["mode"]
+    # ---- 2. seeded cases of the simulator's own policies
     cases = cases_for(tier, seed)
-    raws = common.run_cases_parallel("cluster", cases, wd, procs=14, timeout=3000,
-                                     env={"NUN_ELECTION_TIMEOUT": "10"})
-    norm_path = os.path.join(wd, "norm.ndjson")
-    cluster.normalize(raws, norm_path)
-    out = common.validate_into(res, norm_path, "Trace_Cluster.tla", "Trace_Cluster.cfg", CHECKS, devs,
-                               "/dev/null", wd, {c["id"]: c for c in cases})
+    for c in cases:
+        c["trace_state"] = True
+    allc = model_cases + cases
+    by_id = {c["id"]: c for c in allc}
+    raws = common.run_cases_parallel("cluster", allc, wd, procs=14, timeout=3000,
+                                     env={"NUN_ELECTION_TIMEOUT": str(elect.TIMEOUT_MS)})
+    # ---- 3. every run against NunElect (Trace_Elect): step-by-step conformance + outcome
+    groups = elect.normalize(raws, os.path.join(wd, "norm-elect"), by_id)
+    ev = elect.validate(groups, devs, wd, workers=5)
+    for d, runs in ev["used"].items():
+        res.findings_used.setdefault(d, []).extend(runs)
+    drifted, outcome_rejected = [], []
+    for run_id, r in ev["rejected"].items():
+        e = json.loads(r["event"]) if r["event"] else {}
+        if e.get("ev") in ("quiesce", "end", "formed_outcome") or (e.get("ev") == "formed" and not e.get("quiet", True)):
+            outcome_rejected.append(run_id)
+            res.add_violation(wd, run_id, {"property": PROP, "run": run_id, "why": "the run follows the modelled protocol "
+                              "step by step and ends outside the outcomes recorded for it (or does not go quiet)",
+                              "rejected_event": e, "case": by_id.get(run_id), "module": "Trace_Elect.tla",
+                              "tlc_tail": r["tlc"][-1500:]})
+        else:
+            drifted.append(run_id)
+    # schedule replays: steps the simulator could not follow
+    sched_drift = sched_used = 0
+    mismatched = []
+    for rf in raws:
+        for line in open(rf):
+            if '"ev":"end"' in line or '"ev":"formed"' in line:
+                raw = json.loads(line)
+                if raw["run"].startswith("m_"):
+                    sched_drift += raw.get("drift", 0)
+                    sched_used += raw.get("schedule_used", 0)
+    # ---- 4. runs that left the model are judged by the reference monitor alone, without any recorded finding
+    out2 = {"runs": 0, "events": 0}
+    if drifted:
+        norm_path = os.path.join(wd, "norm.ndjson")
+        sel = set(drifted)
+        cluster.normalize(raws, norm_path, only=sel)
+        out2 = common.validate_into(res, norm_path, "Trace_Cluster.tla", "Trace_Cluster.cfg", CHECKS, [],
+                                    "/dev/null", wd, by_id)
+    ex_states = sum(r["distinct"] for r in exr.values())
+    ex_trans = sum(r["generated"] for r in exr.values())
     res.coverage.update({
-        "states": out["states"], "transitions": out["events"],
-        "model": "Trace_Cluster.tla (ClusterMonitor reference, group ELECT)",
-        "traces_validated_against_impl": out["runs"], "events_validated": out["events"], "cases": len(cases),
+        "states": ex_states, "transitions": ex_trans,
+        "model": "NunElect.tla: %d scenarios explored exhaustively (invariants NeverTwoPrimaries, NobodyStartingUp, "
+                 "GoodOrKnown, SupervisorAlive, NoRelink; liveness Terminates), %d start-up scenarios by random walks"
+                 % (len(ex), len(walks)),
+        "model_outcomes_at_quiescence": modes,
+        "model_generated_cases": len(model_cases), "schedule_steps_followed": sched_used,
+        "schedule_steps_drifted": sched_drift,
+        "traces_validated_against_impl": len(ev["accepted"]) + len(ev["rejected"]), "events_validated": ev["events"],
+        "runs_following_the_model": len(ev["accepted"]) + len(outcome_rejected), "runs_leaving_the_model": len(drifted),
+        "runs_judged_by_reference_only": out2["runs"],
+        "cases": len(allc),
         "samples": [{"nodes": c["nodes"], "pids": c["pids"], "ops": [o["line"] for o in c["ops"]],
-                     "formation_policy": c["formation_policy"]} for c in cases[:: max(1, len(cases) // 3)][:3]],
+                     "formation": c["formation"]} for c in allc[:: max(1, len(allc) // 3)][:3]],
         "exhaustive": False,
-        "rule": "2- and 3-node clusters with every assignment of start times; start-up through the real join "
-                "requests and the initial election; then: forced election on each node, death of the primary, "
-                "death of a secondary, two simultaneous forced elections; message deliveries in FIFO and seeded "
-                "random orders, a wait-loop timer tick only when nothing can be delivered; Trace_Cluster group "
-                "ELECT at every quiescence: one primary, the longest-running live node, everybody else "
-                "secondary, every member map names it; no quiescence within 6000 steps = non-termination",
+        "rule": "NunElect (implementation-shaped election / membership model): established 2- and 3-node clusters x "
+                "{forced election on each node, death of each node, two simultaneous triggers}: every order of "
+                "deliveries, replies, loop and supervisor steps and timer ticks (a tick only when nothing else can "
+                "move); start-up through mutual join requests by random walks. Every complete model behaviour that "
+                "ends in a distinct state is replayed on the real nodes; every simulator run (these and the seeded "
+                "FIFO / random ones: start-up, forced elections, deaths, simultaneous elections) is validated step "
+                "by step against the model (state projection after every step) and judged at every quiescence: "
+                "one primary, the longest-running live node, everybody else secondary, all member maps name it",
     })
     res.assumptions = ["NUN_ELECTION_TIMEOUT=10 ms (5 wait-loop iterations); the 100 ms grace sleep is real",
-                       "all nodes start together; process ids (start times) are set by the case"]
+                       "all nodes start together; process ids (start times) are set by the case",
+                       "a run that does not follow the model step by step is judged without any recorded finding"]
+    if drifted:
+        res.notes.append("runs that left the model: " + ", ".join(sorted(drifted)[:10]))
     return res, known
